@@ -263,8 +263,19 @@ MC_ORACLE static void accounting (void) {
 		if (w->note != NULL && peek_notified (w->note)) mc_fail ("a wait whose cancel note is notified is still asleep with nothing left to wake it (thread %d)", i / H_MAXOPS);
 	}
 }
+/* At quiescence only threads inside a conditional wait or a cv wait may legitimately be blocked; a thread
+   asleep in a plain lock / rlock / unlock has nobody left to wake it (C02) -- the rescue below would hide that. */
+MC_ORACLE static void plain_lockers_done (void) {
+	int t, k;
+	for (t = 0; t < h_nthreads; t++) if (!mc_fiber_done (t)) {
+		int waiting = (v_state[t] == 1);
+		for (k = 0; k < H_MAXOPS; k++) if (wr[t * H_MAXOPS + k].state == 1) waiting = 1;
+		if (!waiting) mc_fail ("T%d is blocked for ever in a lock operation that is not a wait: the mutex is free (or only read-held) and nobody is left to wake it", t);
+	}
+}
 static void mw_observer (void) {
 	unsigned left;
+	plain_lockers_done ();
 	accounting ();
 	wlock (); val[0] = 1; val[1] = 1; cvflag = 1; nsync_cv_broadcast (&cv); wunlock (1);
 	nsync_note_notify (note_fresh);
